@@ -15,13 +15,15 @@ def seeded_table(logfile):
         m = re.match(r"(ok|MISSED|FALSE-ALARM|ERROR)\s+(\S+)\s+(C\d\d)?\s*exit=(\d)", line)
         if m:
             res.setdefault(m.group(2), {})[m.group(3)] = (m.group(1), m.group(4))
-    rows = ["| seeded change | what it changes | what it needs in order to manifest | detected by (quick tier) |", "|---|---|---|---|"]
+    rows = ["| seeded change | what it changes | what it needs in order to manifest | detected by (quick tier unless noted) |", "|---|---|---|---|"]
     n = ok = 0
     for d in sorted(glob.glob(os.path.join(VERIF, "seeded", "C*"))):
         name = os.path.basename(d)
         meta = json.load(open(os.path.join(d, "meta.json")))
         r = res.get(name, {})
         det = ", ".join("%s%s" % (c, "" if v[0] == "ok" else " (**missed**)") for c, v in sorted(r.items())) or "not run"
+        if meta.get("tier") == "thorough":
+            det += " (thorough tier; the quick tier does not reach this size)"
         n += 1
         ok += 1 if any(v[0] == "ok" for v in r.values()) else 0
         rows.append("| `%s` | %s | %s | %s |" % (name, meta.get("summary", "").replace("|", "/"), meta.get("needs_to_manifest", "").replace("|", "/"), det))
